@@ -1,4 +1,6 @@
 import QP.Proofs.C05Compile
+import QP.Proofs.C05Counter
+import QP.Proofs.C05Helpers
 /-!
 # Property theorems for C05 — compilation options never change what is played
 
@@ -159,6 +161,76 @@ theorem compile_invariants (pt : PT) (ctx : Ctx) (T : Chain) (S : List String) (
     (hJ : compile pt { ctx with single := [] } = .ok J) (hnn : nnI J)
     (hI : compile pt { ctx with trafo := T, single := S } = .ok I) : Inv I :=
   (W_all pt).1 ctx ctx.trafo J hJ hnn T S I hI
+
+/-! ## the full statements are false of the code: the open findings on the model -/
+
+/-- PF-11: `2 * ParallelChannelPT(FunctionPT('t', 2, 'A'), {'B': 1}, identifier='pc')` — the one played waveform
+samples `B = 1` with the default options and `B = 2` with `to_single_waveform = {'pc'}` -/
+theorem collapse_invariant_counterexample_pf11 (t : Rat) :
+    (∃ I w, compile pf11X (pf11Ctx []) = .ok I ∧ leafWfs I = [w] ∧ pv w "B" t = some (some 1)) ∧
+    (∃ I w, compile pf11X (pf11Ctx ["pc"]) = .ok I ∧ leafWfs I = [w] ∧ pv w "B" t = some (some 2)) :=
+  pf11_model t
+
+/-- PF-04-junction: `TimeReversalPT(SequencePT(SequencePT(a, b, identifier='s'), b))` at program time 2 plays
+2 (the end value of `a`) with the default options and 5 (the start value of `b`) with `to_single_waveform = {'s'}` -/
+theorem collapse_invariant_counterexample_pf04_junction :
+    (∃ I a b c, compile j04X (j04Ctx []) = .ok I ∧ revLeaves I = [a, b, c] ∧ a.duration = 1 ∧ b.duration = 1 ∧
+      c.sample "A" 0 = some 2) ∧
+    (∃ I a b, compile j04X (j04Ctx ["s"]) = .ok I ∧ revLeaves I = [a, b] ∧ a.duration = 1 ∧
+      b.sample "A" 1 = some 5) :=
+  pf04_junction_model
+
+/-! ## convenience constructors -/
+
+/-- `SequencePT.concatenate(*pts, **kw)` / `@` / `with_appended`: the program of the helper's template has the
+same children and the same measurement windows as the program of the explicit `SequencePT(*pts, **kw)`, hence
+the same observables — for every list of templates, every context, transformation and `to_single_waveform` set. -/
+theorem concatenate_program (pts : List PT) (id : Option String) (meas : List MeasDecl) (cons : List Expr)
+    (ctx : Ctx) (T0 T : Chain) (S : List String) (J Ie If : List Item) (c : Chan)
+    (hJ : internal (concatenateExplicit pts id meas cons) { ctx with trafo := T0, single := [] } = .ok J) (hnn : nnI J)
+    (hIe : internal (concatenateExplicit pts id meas cons) { ctx with trafo := T, single := S } = .ok Ie)
+    (hIf : internal (concatenate pts id meas cons) { ctx with trafo := T, single := S } = .ok If) :
+    ObsRel c [] (toProgram If) (toProgram Ie) := by
+  obtain ⟨h1, h2⟩ := concatenate_sameObs pts id meas cons ctx T0 T S J Ie If hJ hnn hIe hIf
+  exact obsRel_of_rel c [] If Ie (rel_congr c [] Ie If Ie Ie h1.symm (h2 0).symm rfl rfl (rel_refl c Ie))
+
+/-- helpers that only wrap are the explicit nesting (`with_repetition` on anything but an unnamed repetition
+without measurements, `with_parallel_channels` on anything but an unnamed ParallelChannelPT, …) -/
+theorem withRepetition_plain_eq (pt : PT) (count : Expr) (h : ∀ body c cons, pt ≠ .rep none body c [] cons) :
+    withRepetition pt count = withRepetitionExplicit pt count := withRepetition_plain pt count h
+
+theorem withParallelChannels_plain_eq (pt : PT) (values : List (Chan × Expr))
+    (h : ∀ body over, pt ≠ .parallel none body over) :
+    withParallelChannels pt values = withParallelChannelsExplicit pt values := withParallelChannels_plain pt values h
+
+theorem withTimeReversal_plain_eq (pt : PT) (h : ∀ inner, pt ≠ .timeReversal none inner) :
+    withTimeReversal pt = withTimeReversalExplicit pt := withTimeReversal_plain pt h
+
+theorem withMapping_plain_eq (pt : PT) (pm : List (String × Expr)) (mm : List (MName × MName))
+    (cm : List (Chan × Option Chan)) (h : ∀ body pm' mm' cm' cons, pt ≠ .mapping none body pm' mm' cm' cons) :
+    withMapping pt pm mm cm = some (withMappingExplicit pt pm mm cm) := withMapping_plain pt pm mm cm h
+
+theorem withIteration_eq (pt : PT) (idx : String) (a b s : Expr) :
+    withIteration pt idx a b s = .forLoop none pt idx a b s [] [] := rfl
+
+theorem padTo_kwargs_eq (pt : PT) (padDur : Expr) (finals : List (Chan × Expr)) (isZero : Bool)
+    (kw : Option String × List MeasDecl × List Expr) :
+    padTo pt padDur finals isZero (some kw) = padToExplicit pt padDur finals isZero (some kw) := rfl
+
+/-- `pad_to` without keyword arguments is `self @ ConstantPT(pad, final_values)`, i.e. `concatenate` -/
+theorem padTo_concat (pt : PT) (padDur : Expr) (finals : List (Chan × Expr)) :
+    padTo pt padDur finals false none = concatenate [pt, .const none padDur finals []] none [] [] := rfl
+
+/-- PF-27: merging the counts in `RepetitionPT.with_repetition` is wrong when both counts are negative
+(n = -2, k = -3: the merged template lasts 6, the explicit nesting is empty) -/
+theorem withRepetition_merge_counterexample :
+    (match denote (withRepetition (.rep none (.const none (.lit 1) [("A", .lit 1)] []) (.var "n") [] []) (.var "k"))
+        (.dict [("n", -2), ("k", -3)]) [] [("A", some "A")] with
+      | .ok p => some p.dur | .error _ => none) = some 6 ∧
+    (match denote (withRepetitionExplicit (.rep none (.const none (.lit 1) [("A", .lit 1)] []) (.var "n") [] []) (.var "k"))
+        (.dict [("n", -2), ("k", -3)]) [] [("A", some "A")] with
+      | .ok p => some p.dur | .error _ => none) = some 0 := by
+  decide +kernel
 
 /-! ## non-vacuity -/
 
